@@ -64,6 +64,37 @@ pub fn gen(idx: u64, rng: &mut Rng, tier: Tier) -> Scn {
     if let Some(s) = enumerated(idx) {
         return Scn { sender: s };
     }
+    if rng.chance(0.08) {
+        // being-transferred mode with a Raptor FDT of 1400-byte symbols: the FDT listing ONE object fits one
+        // symbol, the one listing two or three needs 2-3 symbols, which Raptor cannot encode: the publication
+        // made when a second object starts fails and that start is postponed until the first one is done
+        let mut spec = SenderSpec::basic(OtiSpec::new(Scheme::Raptor, 1400, 64, 1, true));
+        spec.full_fdt = false;
+        spec.queues = vec![(0, rng.range(2, 3) as u32)];
+        let n = rng.range(2, 3) as usize;
+        let mut objects = Vec::new();
+        let mut ops = Vec::new();
+        for i in 0..n {
+            let mut o = ObjectSpec::basic(rng.range(20, 200) as usize, rng.next_u64(), i);
+            o.oti = Some(OtiSpec::new(Scheme::NoCode, 16, 4, 0, true));
+            o.max_transfer_count = rng.range(1, 2) as u32;
+            if rng.chance(0.3) {
+                o.carousel = Some(CarouselSpec::DelayMs(rng.range(0, 20)));
+            }
+            objects.push(o);
+            ops.push(TimedOp { when: if rng.chance(0.7) { When::AtUs(0) } else { When::AfterPkt(rng.range(1, 10)) }, op: Op::Add(i) });
+        }
+        for (i, o) in objects.iter().enumerate() {
+            if o.carousel.is_some() {
+                ops.push(TimedOp { when: When::AtUs(rng.range(100_000, 300_000)), op: Op::Remove(i) });
+            }
+        }
+        let mut poll = PollSpec::simple(2000);
+        poll.burst = if rng.chance(0.5) { None } else { Some(rng.range(1, 5) as u32) };
+        poll.max_polls = 600;
+        poll.idle_polls_after_done = 2;
+        return Scn { sender: SenderScn { spec, objects, ops, poll, snapshots: true } };
+    }
     let mut s = gen_history(rng, if tier == Tier::Quick { 60 } else { 300 }, true);
     s.snapshots = true;
     for o in s.objects.iter_mut() {
@@ -187,7 +218,12 @@ pub fn oracle(scn: &SenderScn, ctx: &Ctx, trace: &SenderTrace) {
         }
         // --- liveness: while the object still has transfers to make (carousel: always) and is due, a read that
         // returns 'nothing to send' is wrong (an object stuck in its queue never violates the counting rules)
-        if !triggered && o.target.is_none() {
+        // (when the sender-wide FEC parameters can make a publication fail - the start of a transfer is then
+        // legitimately postponed - the rule needs evidence that an FDT listing one such object alone can be
+        // published: an instance of this run that lists a single object)
+        let publication_can_fail = (scn.spec.oti.scheme == Scheme::Raptor && scn.spec.oti.e > 64) || (matches!(scn.spec.oti.scheme, Scheme::Rs28 | Scheme::Rs28Us) && scn.spec.oti.parity == 0);
+        let single_ok = txs.iter().any(|x| x.complete_at.is_some() && x.doc.as_ref().map(|d| d.files.len() == 1).unwrap_or(false));
+        if !triggered && o.target.is_none() && (!publication_can_fail || (single_ok && !scn.spec.full_fdt)) {
             let published_seq = if scn.spec.full_fdt {
                 add_seq(trace, i).and_then(|a| trace.ops.iter().find(|r| r.seq > a && r.result == OpResult::Published(true)).map(|r| r.seq))
             } else {
@@ -215,7 +251,8 @@ pub fn oracle(scn: &SenderScn, ctx: &Ctx, trace: &SenderTrace) {
                     let gone = removed.unwrap_or(u64::MAX);
                     for (pi, p) in trace.polls.iter().enumerate() {
                         let end_seq = trace.polls.get(pi + 1).map(|n| n.seq_begin).unwrap_or(u64::MAX);
-                        if p.drained && p.seq_begin > from_seq && p.t_us > due_us + 1000 && end_seq < gone {
+                        // a read that returns nothing at all: the sender is idle (no other object holds it up)
+                        if p.drained && p.n_pkts == 0 && p.seq_begin > from_seq && p.t_us > due_us + 1000 && end_seq < gone {
                             violate(
                                 ctx,
                                 "C12/due-object-not-transferred",
